@@ -1,5 +1,7 @@
 //go:build verif
 
+//go:debug randseednop=0
+
 // Shared consumer-group scenario driver ("GROUP") for C12, C13, C14, C15, C43.
 //
 // It runs the real GroupCoordinator over the real InMemoryStore (or EtcdStore)
@@ -347,9 +349,15 @@ type gWorld struct {
 	peer    *gWorld // the other group on the same coordinator (pair mode)
 }
 
+// gSeedSalt is set from VERIF_SEED by each test so that member ids differ between seeds.
+var gSeedSalt int64
+
 var gBroker = protocol.MetadataBroker{NodeID: 1, Host: "127.0.0.1", Port: 9092}
 
 func newGWorld(t testing.TB, cfg gConfig, store metadata.Store, virtual bool, offBase int64, tees ...metadata.Store) *gWorld {
+	// the coordinator draws member ids from the global math/rand source: seeding it per scenario makes a
+	// case a pure function of (VERIF_SEED, case index); nothing depends on the values themselves
+	rand.Seed(gSeedSalt*1000003 + offBase + int64(len(cfg.Group))) //nolint:staticcheck
 	w := &gWorld{t: t, cfg: cfg, virtual: virtual, ids: map[string]*gIDInfo{}, offBase: offBase, name: "A"}
 	w.rec = newGRecStore(store, tees...)
 	w.start = time.Now()
